@@ -45,10 +45,11 @@ DFok(r) ==
 (* ---- SeparableGaussianArrayFilter / SeparableGaussianImageFilter /       *)
 (* ---- SeparableMetzArrayFilter (power 0) -------------------------------- *)
 \* relative tolerances (as powers of two) on "kernel sums to one" and "preserves the mean":
-\* Gaussian: the kernel is normalised in double precision and stored in single precision, three passes
-\* of at most ~60 single-precision multiply-adds; Metz: the kernel is "cut off" where it falls below
-\* 1E-4 of its centre value (documented in the source), so its sum is one only to about 1E-3.
-RelLog(filter) == IF filter = "metz_array" THEN 10 ELSE 18
+\* Gaussian: 2^-16, the bound for single-precision accumulation (kernel normalised in double precision, stored in
+\* single precision; three passes of at most ~60 multiply-adds each: worst case 3 * 60 * 2^-24 < 2^-16);
+\* Metz: the kernel is "cut off" where it falls below 1E-4 of its centre value (documented in the source), so
+\* its sum is one only to about 1E-3: 2^-10.
+RelLog(filter) == IF filter = "metz_array" THEN 10 ELSE 16
 IRNonZero(r) == { q \in 1..Size(r.irn) : r.ir[q] # 0 }
 MaxOf(S) == CHOOSE x \in S : \A y \in S : x >= y
 HalfWidths(r, nz) == [d \in Axes |-> MaxOf({0} \cup { Abs(Pos(Z3, r.irn, q - 1)[d] - r.ipos[d]) : q \in nz })]
